@@ -36,7 +36,7 @@ class Cfg:
         self.burst = 0            # send this many MTU-size messages at once
         self.probe = True
         self.unicode_labels = False
-        self.protect_reconfig = True   # never drop datagrams carrying RE-CONFIG (known finding K02)
+        self.protect_reconfig = False  # True: never drop datagrams carrying RE-CONFIG (they are retransmitted since 3df715a)
         self.sseq_ops = False          # insert ("sseq", i, 0) placeholders after channels open (C17)
         self.__dict__.update(kw)
 
